@@ -412,7 +412,7 @@ def extern_defs(w):
     return '\n'.join(out)
 
 
-ADDR = r'(0x[0-9A-Fa-f]+|\d+usize|\d+)'
+ADDR = r'(0x[0-9A-Fa-f_]+|[0-9][0-9_]*usize|[0-9][0-9_]*)'
 
 
 def rewrite_absolute_addresses(t, modprefix):
